@@ -173,7 +173,9 @@ func allRunners() []runner {
 		c := edwards25519.NewCurve()
 		g := mkCurve("ed25519-full", c.PrimeSubGroupGenerator(), c.OpIdentity(), edwards25519.NewScalarField(), edwards25519.NewPrimeSubGroup().Order().Big(),
 			c.FromBytes, nil, c.MultiScalarMul,
-			func(s []*edwards25519.Scalar, p []*edwards25519.Point) *edwards25519.Point { return algebrautils.MultiScalarMul(s, p) })
+			func(s []*edwards25519.Scalar, p []*edwards25519.Point) *edwards25519.Point {
+				return algebrautils.MultiScalarMul(s, p)
+			})
 		g.affine = affineOf((*edwards25519.Point).AffineX, (*edwards25519.Point).AffineY)
 		gx, gy, _ := g.affine(g.gen)
 		G := apt{x: gx, y: gy}
@@ -192,7 +194,9 @@ func allRunners() []runner {
 		out = append(out, mkRunner(g))
 		f := curve25519.NewCurve()
 		gf := mkCurve("x25519-full", f.PrimeSubGroupGenerator(), f.OpIdentity(), curve25519.NewScalarField(), c.Order().Big(), f.FromBytes, nil, nil,
-			func(s []*curve25519.Scalar, p []*curve25519.Point) *curve25519.Point { return algebrautils.MultiScalarMul(s, p) })
+			func(s []*curve25519.Scalar, p []*curve25519.Point) *curve25519.Point {
+				return algebrautils.MultiScalarMul(s, p)
+			})
 		gf.bytes = func(a *curve25519.Point) []byte { return a.ToUncompressed() }
 		gf.fromBytes = f.FromUncompressed
 		out = append(out, mkRunner(gf))
@@ -200,14 +204,18 @@ func allRunners() []runner {
 	{ // Pallas / Vesta
 		c := pasta.NewPallasCurve()
 		g := mkCurve("pallas", c.Generator(), c.OpIdentity(), pasta.NewPallasScalarField(), c.Order().Big(), c.FromBytes, c.ScalarBaseMul, c.MultiScalarMul,
-			func(s []*pasta.PallasScalar, p []*pasta.PallasPoint) *pasta.PallasPoint { return algebrautils.MultiScalarMul(s, p) })
+			func(s []*pasta.PallasScalar, p []*pasta.PallasPoint) *pasta.PallasPoint {
+				return algebrautils.MultiScalarMul(s, p)
+			})
 		g.affine = affineOf((*pasta.PallasPoint).AffineX, (*pasta.PallasPoint).AffineY)
 		gx, gy, _ := g.affine(g.gen)
 		g.indep, g.indepName = weierIndep(wPallas, gx, gy), "math/big affine Pallas"
 		out = append(out, mkRunner(g))
 		v := pasta.NewVestaCurve()
 		gv := mkCurve("vesta", v.Generator(), v.OpIdentity(), pasta.NewVestaScalarField(), v.Order().Big(), v.FromBytes, v.ScalarBaseMul, v.MultiScalarMul,
-			func(s []*pasta.VestaScalar, p []*pasta.VestaPoint) *pasta.VestaPoint { return algebrautils.MultiScalarMul(s, p) })
+			func(s []*pasta.VestaScalar, p []*pasta.VestaPoint) *pasta.VestaPoint {
+				return algebrautils.MultiScalarMul(s, p)
+			})
 		gv.affine = affineOf((*pasta.VestaPoint).AffineX, (*pasta.VestaPoint).AffineY)
 		vx, vy, _ := gv.affine(gv.gen)
 		gv.indep, gv.indepName = weierIndep(wVesta, vx, vy), "math/big affine Vesta"
@@ -227,13 +235,17 @@ type blsGroups struct {
 func allRunnersTyped() blsGroups {
 	c := bls12381.NewG1()
 	g := mkCurve("bls-g1", c.Generator(), c.OpIdentity(), bls12381.NewScalarField(), c.Order().Big(), c.FromBytes, c.ScalarBaseMul, c.MultiScalarMul,
-		func(s []*bls12381.Scalar, p []*bls12381.PointG1) *bls12381.PointG1 { return algebrautils.MultiScalarMul(s, p) })
+		func(s []*bls12381.Scalar, p []*bls12381.PointG1) *bls12381.PointG1 {
+			return algebrautils.MultiScalarMul(s, p)
+		})
 	g.affine = affineOf((*bls12381.PointG1).AffineX, (*bls12381.PointG1).AffineY)
 	gx, gy, _ := g.affine(g.gen)
 	g.indep, g.indepName = weierIndep(wBlsG1, gx, gy), "math/big affine BLS12-381 G1"
 	c2 := bls12381.NewG2()
 	g2 := mkCurve("bls-g2", c2.Generator(), c2.OpIdentity(), bls12381.NewScalarField(), c2.Order().Big(), c2.FromBytes, c2.ScalarBaseMul, c2.MultiScalarMul,
-		func(s []*bls12381.Scalar, p []*bls12381.PointG2) *bls12381.PointG2 { return algebrautils.MultiScalarMul(s, p) })
+		func(s []*bls12381.Scalar, p []*bls12381.PointG2) *bls12381.PointG2 {
+			return algebrautils.MultiScalarMul(s, p)
+		})
 	// BLS12-381 target group, written multiplicatively; generator e(G1, G2)
 	gt := bls12381.NewGt()
 	e, err := bls12381.NewG1().Generator().Pair(bls12381.NewG2().Generator())
